@@ -68,6 +68,25 @@ def lit(p=None, q=1, r='d', *, k=None):
   return targets.Rec('lit', [('p', p), ('q', q), ('r', r), ('k', k)], (), {})
 
 
+class Maker:
+  """Alternative constructors: a classmethod defined on the base, reached through a subclass."""
+
+  def __init__(self, p=None):
+    self.rec = targets.Rec(type(self).__name__, [('p', p)], (), {})
+
+  @classmethod
+  def create(cls, p=None, q=0):
+    return cls(p=(p, q))
+
+  @staticmethod
+  def helper(p=None):
+    return targets.Rec('Maker.helper', [('p', p)], (), {})
+
+
+class SubMaker(Maker):
+  pass
+
+
 def pos(a, b=2, /, c=3, *args, **kw):
   return targets.Rec('pos', [('a', a), ('b', b), ('c', c)], tuple(args), dict(kw))
 
@@ -139,7 +158,12 @@ class Gen:
   def buildable(self, depth):
     r = self.r
     btype = r.choice([fdl.Config, fdl.Config, fdl.Partial, fdl.ArgFactory])
-    if r.random() < 0.6:
+    x = r.random()
+    if x < 0.12:
+      # classmethods (on the defining class and inherited through a subclass), staticmethods
+      fn = r.choice([Maker.create, SubMaker.create, SubMaker.create, Maker.helper, SubMaker])
+      c = btype(fn, p=self.value(depth))
+    elif x < 0.6:
       kw = {n: self.value(depth) for n in ('p', 'q', 'r', 'k') if r.random() < 0.5}
       c = btype(lit, **kw)
     else:
@@ -153,7 +177,8 @@ class Gen:
         except Exception:
           pass
     if r.random() < 0.15:
-      fdl.add_tag(c, 'q' if c.__fn_or_cls__ is lit else 'c', targets.T1)     # tag on an unset argument
+      if c.__fn_or_cls__ in (lit, pos):
+        fdl.add_tag(c, 'q' if c.__fn_or_cls__ is lit else 'c', targets.T1)     # tag on an unset argument
     return c
 
 
